@@ -16,11 +16,12 @@ import (
 var progress atomic.Int64
 
 // watchdog runs outside the bubble. A request blocked on a sync.Mutex is not durably blocked, so
-// a lock-order deadlock inside the engine shows up as synctest.Wait() never returning. After 5 s
-// of wall time without any progress the goroutine dump is examined: if every request goroutine of
-// the bubble is parked on a mutex or on a record guard, that is a deadlock (reported with the
-// functions that wait as the signature); anything else is inconclusive. Either way the process
-// cannot continue and exits after handing its result to the parent.
+// a lock-order deadlock inside the engine shows up as synctest.Wait() never returning. After 3 s
+// of wall time without progress the goroutine dump is examined: if every request goroutine of the
+// bubble is parked on a mutex or on a record guard, and still is one second later, that is a
+// deadlock (what decides is the dump, not the clock; the index walks that wait are the signature).
+// Otherwise the watchdog keeps waiting; after 100 s it gives up (inconclusive). A deadlocked
+// process cannot continue and exits after handing its result to the parent.
 func watchdog(c *rig.Check, s *sched) (stop func()) {
 	done := make(chan struct{})
 	go func() {
@@ -37,16 +38,24 @@ func watchdog(c *rig.Check, s *sched) (stop func()) {
 				last, since = p, time.Now()
 				continue
 			}
-			if time.Since(since) < 5*time.Second {
+			idle := time.Since(since)
+			if idle < 3*time.Second {
 				continue
 			}
+			// a deadlock is called only on a dump in which every request is parked on a lock or a
+			// guard, seen twice one second apart; a slow or starved process keeps being waited for
 			buf := make([]byte, 4<<20)
 			buf = buf[:runtime.Stack(buf, true)]
 			sig, what := classifyDump(string(buf))
-			time.Sleep(time.Second)
-			buf2 := make([]byte, 4<<20)
-			if sig2, _ := classifyDump(string(buf2[:runtime.Stack(buf2, true)])); sig2 != sig || progress.Load() != last {
-				sig = "" // still moving: not a deadlock
+			if sig != "" {
+				time.Sleep(time.Second)
+				buf2 := make([]byte, 4<<20)
+				if sig2, _ := classifyDump(string(buf2[:runtime.Stack(buf2, true)])); sig2 != sig || progress.Load() != last {
+					sig = ""
+				}
+			}
+			if sig == "" && idle < 100*time.Second {
+				continue
 			}
 			c.Case(rig.Dump(s), false)
 			c.Seen("tags", s.Tag)
@@ -54,7 +63,7 @@ func watchdog(c *rig.Check, s *sched) (stop func()) {
 				c.Count("sig "+sig, 1)
 				c.Violate(sig, what, map[string]any{"sched": s, "dump": trimDump(string(buf))})
 			} else {
-				c.Inconclusive("no progress for 6 s of wall time and the goroutine dump is not a plain deadlock")
+				c.Inconclusive("no progress for 100 s of wall time and the goroutine dump is not a plain deadlock")
 				fmt.Fprintln(os.Stderr, string(buf))
 			}
 			c.Finish()
